@@ -478,12 +478,12 @@ def main(ctx):
     ]
     regen_ok = ctx.regen()
     lean_ok, errs = ctx.lake_build(["GojaModel.C01.Props", "GojaModel.C01.Tie", "model_c01"])
-    names = ctx.audit("GojaModel.C01.Props", expect_min=14) if lean_ok else []
+    names = ctx.audit("GojaModel.C01.Props", expect_min=16) if lean_ok else []
     if lean_ok:
         # Tie theorems are obligations of kind tie
         ctx.audit_tie = None
         for t in ["modelOps_agree", "tie_new", "tie_rdupN", "tie_dupLast", "tie_concatStrings", "new_instance", "jumps_agree",
-                  "dyn_covered", "emitSetP_pops", "exceptionFromValue_cases", "asUncatchable_cases", "recover_sites"]:
+                  "dyn_covered", "emitSetP_pops", "enterFinally_clears", "exceptionFromValue_cases", "asUncatchable_cases", "recover_sites"]:
             ctx.obligation("tie:" + t, "tie", True, "checked by lake build GojaModel.C01.Tie")
     else:
         ctx.obligation("tie:GojaModel.C01.Tie", "tie", not any("Tie.lean" in e["file"] or "Generated" in e["file"] for e in errs),
